@@ -74,7 +74,7 @@ func regProbe(c *restful.Container, entry, path string) (proj string, class stri
 		}
 	}()
 	body := rec.Body.String()
-	proj = fmt.Sprintf("%d|%s|%s|%s", rec.Code, body, rec.Header().Get("Location"), esc)
+	proj = fmt.Sprintf("%d|%s|%s|%s", rec.Code, body, wireHeader(rec).Get("Location"), esc)
 	switch {
 	case esc != "":
 		class = "other"
